@@ -10,6 +10,7 @@ Inductive op14 :=
 | OClear (name : string)
 | OPutScalar (v : node)
 | OFieldSpec (fs : fieldspec) (ck : option kind) (ct : tag) (sv : setval14)
+| OFsSlice (l : list fieldspec) (ck : option kind) (ct : tag) (sv : setval14)
 (* Filter.SetValue used by the harness (a fresh value node per invocation) *)
 with setval14 :=
 | SVScalar (v : node)                 (* FieldSetter{Value: v} *)
@@ -88,6 +89,8 @@ Definition run14 (c : case14) : res (node * option node) :=
       Ok r
   | OFieldSpec fs ck ct sv =>
       do d' <- fs_apply ck ct (sv_fn nonstr sv) fs d; Ok (d', None)
+  | OFsSlice l ck ct sv =>
+      do d' <- fsslice_apply ck ct (sv_fn nonstr sv) l d; Ok (d', None)
   end.
 
 Definition agree14 (c : case14) : bool :=
